@@ -7,7 +7,7 @@
    correspondence check (flag per run), not a theorem: the model is a pure function. *)
 From Coq Require Import List ZArith QArith Permutation Lia.
 From MM Require Import Base.Num Base.GEComb Base.GESort Spec.Ucount Model.GEChoose Model.Udist Model.Utest
-  Proofs.Utest Proofs.UtestP Proofs.UtestLaws.
+  Proofs.Utest Proofs.UtestP Proofs.UtestLaws Proofs.UtestSym Proofs.UtestSymLaws.
 Import ListNotations.
 Local Open Scope Z_scope.
 
@@ -71,6 +71,31 @@ Proof.
   exact (conj (mw_swap_less_greater cmp Hr Ha Ht He x1 x2 H1 H2 HK) (mw_swap_greater_less cmp Hr Ha Ht He x1 x2 H1 H2 HK)).
 Qed.
 Print Assumptions C03_swap_less_greater.
+(* ... preserves the specified two-sided value min(1, 2 min(Pr[U'<=U], Pr[U'>=U])) for EVERY tie vector ... *)
+Theorem C03_swap_two_sided_spec : forall {A} (cmp : A -> A -> comparison), total_preorder cmp -> eq_is_identity cmp ->
+  forall x1 x2 : list A, x1 <> [] -> x2 <> [] ->
+  let s := mw_stat cmp x1 x2 in let n1 := length x1 in let n2 := length x2 in
+  length (ms_T s) <> 1%nat ->
+  (mw_spec_p (udist_cdf n2 n1 (ms_T s)) n2 n1 (2 * Z.of_nat n1 * Z.of_nat n2 - ms_twoU s) 0 ==
+   mw_spec_p (udist_cdf n1 n2 (ms_T s)) n1 n2 (ms_twoU s) 0)%Q.
+Proof.
+  intros A cmp (Hr & Ha & Ht) He x1 x2 H1 H2 s n1 n2 HK.
+  exact (mw_swap_spec_two_sided cmp Hr Ha Ht x1 x2 H1 H2 HK He).
+Qed.
+Print Assumptions C03_swap_two_sided_spec.
+(* ... and preserves the two-sided exact p-value THE CODE computes whenever the tie vector is palindromic
+   (T = rev T, in particular without ties); for other tie vectors see finding D2 *)
+Theorem C03_swap_two_sided_palindromic : forall {A} (cmp : A -> A -> comparison), total_preorder cmp -> eq_is_identity cmp ->
+  forall x1 x2 : list A, x1 <> [] -> x2 <> [] ->
+  let s := mw_stat cmp x1 x2 in let n1 := length x1 in let n2 := length x2 in
+  length (ms_T s) <> 1%nat -> rev (ms_T s) = ms_T s ->
+  (mw_exact_p (udist_cdf n2 n1 (ms_T s)) n2 n1 (2 * Z.of_nat n1 * Z.of_nat n2 - ms_twoU s) 0 ==
+   mw_exact_p (udist_cdf n1 n2 (ms_T s)) n1 n2 (ms_twoU s) 0)%Q.
+Proof.
+  intros A cmp (Hr & Ha & Ht) He x1 x2 H1 H2 s n1 n2 HK Hp.
+  exact (mw_swap_two_sided_palin cmp Hr Ha Ht x1 x2 H1 H2 HK He Hp).
+Qed.
+Print Assumptions C03_swap_two_sided_palindromic.
 (* normal branch under the swap: same sigma^2, negated numerator with Less/Greater exchanged; hence for every
    Phi with Phi(-z) = 1 - Phi(z) the one-sided p-values are exchanged and the two-sided one is preserved *)
 Theorem C03_swap_sigma2 : forall n1 n2 T, sigma2 n2 n1 T = sigma2 n1 n2 T.
@@ -95,6 +120,20 @@ Theorem C03_exact_P_range : forall {A} (cmp : A -> A -> comparison), total_preor
   (0 <= mw_exact_p (udist_cdf (length x1) (length x2) (ms_T s)) (length x1) (length x2) (ms_twoU s) alt <= 1)%Q.
 Proof. intros A cmp (Hr & Ha & Ht). exact (mw_exact_P_range cmp Hr Ha Ht). Qed.
 Print Assumptions C03_exact_P_range.
+(* the specified p-value is a probability for all three alternatives and EVERY tie vector; the two-sided value
+   the code computes is one whenever T is palindromic (for other T it can exceed 1: finding D2) *)
+Theorem C03_spec_P_range : forall {A} (cmp : A -> A -> comparison), total_preorder cmp ->
+  forall x1 x2 : list A, x1 <> [] -> x2 <> [] -> let s := mw_stat cmp x1 x2 in length (ms_T s) <> 1%nat ->
+  forall alt, alt = -1 \/ alt = 0 \/ alt = 1 ->
+  (0 <= mw_spec_p (udist_cdf (length x1) (length x2) (ms_T s)) (length x1) (length x2) (ms_twoU s) alt <= 1)%Q.
+Proof. intros A cmp (Hr & Ha & Ht). exact (mw_spec_P_range cmp Hr Ha Ht). Qed.
+Print Assumptions C03_spec_P_range.
+Theorem C03_exact_two_sided_range : forall {A} (cmp : A -> A -> comparison), total_preorder cmp ->
+  forall x1 x2 : list A, x1 <> [] -> x2 <> [] -> let s := mw_stat cmp x1 x2 in length (ms_T s) <> 1%nat ->
+  rev (ms_T s) = ms_T s ->
+  (0 <= mw_exact_p (udist_cdf (length x1) (length x2) (ms_T s)) (length x1) (length x2) (ms_twoU s) 0 <= 1)%Q.
+Proof. intros A cmp (Hr & Ha & Ht). exact (mw_exact_two_sided_range cmp Hr Ha Ht). Qed.
+Print Assumptions C03_exact_two_sided_range.
 Theorem C03_approx_P_range : forall phi alt, (0 <= phi <= 1)%Q -> (0 <= mw_approx_p phi alt <= 1)%Q.
 Proof. exact mw_approx_P_range. Qed.
 Print Assumptions C03_approx_P_range.
@@ -134,4 +173,11 @@ Example C03_examples :
   mw_test Z.compare udist_cdf 0 0 [4; 4] [4; 4; 4] 0 = MWErrEqual /\
   mw_test Z.compare udist_cdf 50 25 [4; 4] [4; 4; 4] 0 = MWErrEqual /\
   mw_test Z.compare udist_cdf 50 25 [] [4] 0 = MWErrSize.
+Proof. vm_compute. repeat split; reflexivity. Qed.
+(* palindromic tie vector [2;1;2]: the two-sided exact value is the same in both orders (and equals the specified one) *)
+Example C03_palindromic_swap :
+  rev (ms_T (mw_stat Z.compare [1; 3; 3] [1; 2])) = ms_T (mw_stat Z.compare [1; 3; 3] [1; 2]) /\
+  (match mw_test Z.compare udist_cdf 50 25 [1; 3; 3] [1; 2] 0, mw_test Z.compare udist_cdf 50 25 [1; 2] [1; 3; 3] 0 with
+   | MWExact 3 2 9 p ps, MWExact 2 3 3 p' ps' => Qred p = Qred p' /\ Qred p = Qred ps /\ Qred ps = Qred ps'
+   | _, _ => False end).
 Proof. vm_compute. repeat split; reflexivity. Qed.
